@@ -51,7 +51,7 @@ def _child(conn, args):
         conn.close()
 
 
-def run_pool(tasks, timeouts, opts, jobs):
+def run_pool(tasks, timeouts, opts, jobs, budget=None):
     """one forked process per instance, at most `jobs` at a time.  The in-process alarm (run_instance) ends an instance
     at its time limit; a process that does not react (a C-level loop that never returns to the interpreter) is killed
     60 s later and reported as inconclusive - never as a pass."""
@@ -59,6 +59,11 @@ def run_pool(tasks, timeouts, opts, jobs):
     pending = list(tasks)
     running = []          # (process, conn, args, start, hard_deadline)
     while pending or running:
+        if budget is not None and budget['timeouts'] >= budget['max'] and pending:
+            for args in pending:
+                yield {'instance': args[2], 'status': 'inconclusive', 'wall_s': 0.0, 'paths': 0, 'obligations': 0, 'discharged': 0,
+                       'why': ['not run: %d instances had already hit their time limit' % budget['timeouts']]}
+            pending = []
         while pending and len(running) < max(1, jobs):
             args = pending.pop(0)
             pc, cc = ctx.Pipe(duplex=False)
@@ -90,6 +95,8 @@ def run_pool(tasks, timeouts, opts, jobs):
             if r is None:
                 still.append((p, pc, args, t0, dl))
             else:
+                if budget is not None and r.get('status') == 'inconclusive' and any('time limit' in str(w) or 'instance timeout' in str(w) for w in r.get('why', [])):
+                    budget['timeouts'] += 1
                 p.join(timeout=5)
                 pc.close()
                 yield r
@@ -227,7 +234,7 @@ def main(argv=None):
     random.Random(seed).shuffle(order)
     order.sort(key=lambda i: -i.timeout)        # long ones first
     opts = {'branch_ms': 8000 if tier == 'quick' else 30000, 'ob_ms': 20000 if tier == 'quick' else 90000,
-            'time_scale': 1 if tier == 'quick' else 3, 'cap_s': 420 if tier == 'quick' else 10 ** 9}
+            'time_scale': 1 if tier == 'quick' else 3, 'cap_s': 240 if tier == 'quick' else 10 ** 9}
     opts.update(getattr(mod, 'OPTS', {}).get(tier, {}))
     from . import selfcheck
     sc = selfcheck.run(seed)
@@ -242,7 +249,10 @@ def main(argv=None):
             print('[%s] %-60s %-12s paths=%s obs=%s/%s %.1fs %s' % (
                 pid, r['instance'][:60], r['status'], r.get('paths'), r.get('discharged'), r.get('obligations'),
                 r['wall_s'], '; '.join(map(str, r.get('why', [])))[:600]), flush=True)
-    for r in run_pool([(pid, tier, i.name, opts) for i in order], {i.name: i.timeout for i in order}, opts, a.jobs):
+    # when instance after instance runs into its time limit (a change that makes the code under test explode
+    # symbolically), the run is cut short: the verdict is inconclusive either way, and it should not take hours
+    budget = {'timeouts': 0, 'max': 4 if tier == 'quick' else 40}
+    for r in run_pool([(pid, tier, i.name, opts) for i in order], {i.name: i.timeout for i in order}, opts, a.jobs, budget):
         _report(r)
     extra_res = []
     if extra is not None and not a.only:
